@@ -31,7 +31,9 @@ PROP = dict(
     not_modelled=["kick of RTSP / PS / pull / HLS sub-sessions (same dispatch, not driven)", "what a second publisher on the same stream gets (C03)", "hls sub-session mode (session_id redirect, keepSessionAlive)",
                   "http.ServeMux path cleaning/redirects (observed)", "RTSP ANNOUNCE/SETUP/PLAY/RECORD; RTSP authentication applies to DESCRIBE only in lal (ANNOUNCE is not authenticated by rtsp auth, only by simple auth)",
                   "error texts, log lines, HTTP status codes beyond invalid/served", "Windows path separators in filepath (the guard rejects '\\\\' in names all the same)", "symbolic links below the output directories"],
-    assumptions=["the configured RTSP user name contains no ':' (RFC 7617) for rtsp_auth_iff_basic", "stream names / request paths are arbitrary byte strings; roots are arbitrary (absolute, relative, empty)",
+    assumptions=["RTSP: the 'valid credentials are always accepted' oracle applies to the DESCRIBE requests of a connection up to the first one that is answered with a description; since the C03 fix "
+                 "(one ANNOUNCE / DESCRIBE per connection) a repeated DESCRIBE on a connection that already holds its session ends the connection after the authentication stage, whatever it carries - modelled in the session driver, outside the authentication theorems",
+                 "the configured RTSP user name contains no ':' (RFC 7617) for rtsp_auth_iff_basic", "stream names / request paths are arbitrary byte strings; roots are arbitrary (absolute, relative, empty)",
                  "blacklist: calls are made at non-decreasing seconds and the address is not added again (blacklist_until_expiry)", "Go int is 64 bit"],
 )
 
